@@ -210,4 +210,36 @@ def patchOpDoNoClone (op : String) (frm path : Option Path) (src : ValueSrc) (h 
 def copyNoClone (frm : Option Path) (path : Path) (h : Heap) (root : Addr) : HRes :=
   moveOrCopyWith (fun g a => some (g, a)) frm path h root false
 
+/-! ### insertListItem / removeListItem statement by statement
+
+  `items := list.Items(); list.Clear(); for … { list.Append(items[i]) }` — every statement is a
+  builder call on the ONE list cell; the model of the patch operations writes the final content at
+  once.  The two agree. -/
+
+/-- `list.Append(x)` for every `x`, in order -/
+def appendAllH : Heap → Addr → List Addr → Option Heap
+  | h, _, [] => some h
+  | h, l, x :: xs =>
+    match listAppend h l x with
+    | none => none
+    | some h1 => appendAllH h1 l xs
+
+/-- utils.go insertListItem, statement by statement (index in range) -/
+def insertListItemStmts (h : Heap) (l : Addr) (i : Nat) (v : Addr) : Option Heap :=
+  match h.get? l with
+  | some (.list items) =>
+    match listClear h l with
+    | none => none
+    | some h1 => appendAllH h1 l (items.take i ++ v :: items.drop i)
+  | _ => none
+
+/-- utils.go removeListItem, statement by statement (index in range) -/
+def removeListItemStmts (h : Heap) (l : Addr) (i : Nat) : Option Heap :=
+  match h.get? l with
+  | some (.list items) =>
+    match listClear h l with
+    | none => none
+    | some h1 => appendAllH h1 l (items.take i ++ items.drop (i + 1))
+  | _ => none
+
 end Ytk.Heap
